@@ -64,10 +64,10 @@ def cover : List (String × List Cover) := [
   ("amgcl/backend/builtin.hpp|spectral_radius|b1", [.poison "h_pipeline"]),
   ("amgcl/backend/builtin.hpp|sum|C.col+val", [.thm "Amgcl.C10.sum_cells_all_written", .poison "h_pipeline"]),
   ("amgcl/backend/builtin.hpp|sum|C.ptr", [.thm "Amgcl.C10.sum_cells_all_written", .poison "h_pipeline"]),
-  ("amgcl/coarsening/ruge_stuben.hpp|ruge_stuben::connect|S.col", [.poison "h_pipeline"]),
-  ("amgcl/coarsening/ruge_stuben.hpp|ruge_stuben::connect|S.ptr", [.poison "h_pipeline"]),
-  ("amgcl/coarsening/ruge_stuben.hpp|ruge_stuben::connect|S.val", [.thm "Amgcl.C10.connect_defined", .poison "h_pipeline"]),
-  ("amgcl/coarsening/ruge_stuben.hpp|ruge_stuben::operators|P.col+val", [.poison "h_pipeline"]),
+  ("amgcl/coarsening/ruge_stuben.hpp|ruge_stuben::connect|S.col", [.thm "Amgcl.C10b.connect_indep_heap", .poison "h_pipeline"]),
+  ("amgcl/coarsening/ruge_stuben.hpp|ruge_stuben::connect|S.ptr", [.thm "Amgcl.C10b.connect_indep_heap", .poison "h_pipeline"]),
+  ("amgcl/coarsening/ruge_stuben.hpp|ruge_stuben::connect|S.val", [.thm "Amgcl.C10.connect_defined", .thm "Amgcl.C10b.connect_flags_written", .poison "h_pipeline"]),
+  ("amgcl/coarsening/ruge_stuben.hpp|ruge_stuben::operators|P.col+val", [.thm "Amgcl.C10b.prolongation_cells_all_written", .poison "h_pipeline"]),
   ("amgcl/coarsening/smoothed_aggr_emin.hpp|smoothed_aggr_emin::operators|Af.col+val", [.poison "h_pipeline"]),
   ("amgcl/coarsening/smoothed_aggr_emin.hpp|smoothed_aggr_emin::operators|Af.ptr", [.poison "h_pipeline"]),
   ("amgcl/coarsening/tentative_prolongation.hpp|tentative_prolongation|P.col+val", [.thm "Amgcl.C10c.tentative_prolongation_defined", .poison "h_pipeline"]),
